@@ -3,7 +3,7 @@
 (* (include/iora/network/http_client.hpp performRequest / executeRequest / acquireConnection / dropConnection).       *)
 (*                                                                                                                    *)
 (* One logical request = performRequest(method, url, body, headers, budget).  Per attempt (executeRequest):           *)
-(*   AcquireLease -> CacheLookup {Reuse | EvictIdle | miss} -> Connect{ok, refused, timeout, reset-at-accept}         *)
+(*   AcquireLease -> CacheLookup {Reuse | EvictIdle | miss} -> Connect{ok, refused, timeout, closed-at-accept}         *)
 (*   -> SetSyncMode -> Send (the scripted peer's step decides how many request bytes are seen on the wire)            *)
 (*   -> Receive (cut / stall / malformed / success variants) -> [Classify: err in {NotSent, Framing, Other}]          *)
 (*   -> RetryDecision {give up | Backoff}.   The lease is released whenever executeRequest is left.                   *)
@@ -20,6 +20,7 @@ CONSTANTS Callers,        \* {1}: one thread; {1, 2}: two threads sharing one cl
           NReq,           \* logical requests per caller
           MethodSet, BudgetSet,
           StepSet,        \* fault alphabet (records [k, v, p])
+          LaterMethods, LaterSteps,  \* methods / steps of the 2nd, 3rd request of a caller (subsets of MethodSet / StepSet)
           OkTail,         \* success steps allowed after a fault within one logical request
           MaxFaultKinds,  \* distinct non-success steps within one logical request
           ReuseCfg,       \* Config::reuseConnections
@@ -75,6 +76,7 @@ Init == /\ pc = [c \in Callers |-> "idle"] /\ ri = [c \in Callers |-> 1]
 
 \* ------------------------------------------------------------------------------------------------ helpers
 StepOK(c, s) == /\ Applicable(meth[c], s)
+                /\ (ri[c] > 1) => s \in LaterSteps
                 /\ IF Class(s) = "success" THEN fk[c] = {} \/ s \in OkTail
                    ELSE Cardinality(fk[c] \cup {s}) <= MaxFaultKinds
 Note(c, s) == /\ steps' = [steps EXCEPT ![c] = Append(@, s)]
@@ -92,7 +94,7 @@ SetConn(n, open, taint) == conns' = [conns EXCEPT ![n] = [open |-> open, taint |
 
 \* ------------------------------------------------------------------------------------------------ the caller
 Start(c) == /\ pc[c] = "idle" /\ ri[c] <= NReq
-            /\ \E m \in MethodSet, b \in BudgetSet, sl \in (IF AllowIdle /\ ri[c] > 1 THEN {FALSE, TRUE} ELSE {FALSE}) :
+            /\ \E m \in (IF ri[c] = 1 THEN MethodSet ELSE LaterMethods), b \in BudgetSet, sl \in (IF AllowIdle /\ ri[c] > 1 THEN {FALSE, TRUE} ELSE {FALSE}) :
                  /\ meth' = [meth EXCEPT ![c] = m] /\ bud' = [bud EXCEPT ![c] = b] /\ idle' = [idle EXCEPT ![c] = sl]
                  /\ pre' = [pre EXCEPT ![c] = IF sl THEN 1 ELSE 0]
             /\ att' = [att EXCEPT ![c] = 0] /\ atts' = [atts EXCEPT ![c] = <<>>] /\ fk' = [fk EXCEPT ![c] = {}]
@@ -119,19 +121,25 @@ Miss(c) == /\ pc[c] = "cache" /\ cache = 0
 
 NewConn == Len(conns) + 1
 \* acquireConnection (3): connectSync fails (refused / timed out): pre-send region -> HttpRequestNotSentError
-ConnectFails(c, s) == /\ pc[c] = "connect" /\ s \in StepSet /\ StepOK(c, s) /\ Class(s) = "connfail"
+\* (the peer's step is chosen inside the action, behind the pc guard: TLC then has one action instance per caller, not
+\* one per element of StepSet - the byte-offset sweep uses alphabets of ~1000 steps)
+ConnectFails(c) == /\ pc[c] = "connect" /\ \E s \in StepSet :
+                      /\ StepOK(c, s) /\ Class(s) = "connfail"
                       /\ conns' = Append(conns, [open |-> FALSE, taint |-> {"failure"}])
                       /\ Note(c, s) /\ Attempt(c, NewConn, TRUE, TRUE, FALSE, "NotSent", TRUE, {})
                       /\ err' = [err EXCEPT ![c] = "NotSent"] /\ pc' = [pc EXCEPT ![c] = "decide"] /\ lease' = 0
                       /\ UNCHANGED <<ri, meth, pre, bud, att, cur, fresh, stp, idle, cache, script>>
-\* the peer resets the connection right at accept and the engine notices while completing the connect: also NotSent
-ConnectResetEarly(c, s) == /\ pc[c] = "connect" /\ s \in StepSet /\ StepOK(c, s) /\ s.k = "acc_rst"
+\* the peer closes / resets the connection right at accept and the engine notices it (HUP / SO_ERROR) while completing the
+\* connect: connectSync fails, also NotSent (observed on the real client for both; which branch is taken is a race)
+ConnectResetEarly(c) == /\ pc[c] = "connect" /\ \E s \in StepSet :
+                           /\ StepOK(c, s) /\ Class(s) = "accfail"
                            /\ conns' = Append(conns, [open |-> FALSE, taint |-> {"failure"}])
                            /\ Note(c, s) /\ Attempt(c, NewConn, TRUE, TRUE, FALSE, "NotSent", TRUE, {})
                            /\ err' = [err EXCEPT ![c] = "NotSent"] /\ pc' = [pc EXCEPT ![c] = "decide"] /\ lease' = 0
                            /\ UNCHANGED <<ri, meth, pre, bud, att, cur, fresh, stp, idle, cache, script>>
 \* acquireConnection (3)+(4): connected and published in the cache
-ConnectOk(c, s) == /\ pc[c] = "connect" /\ s \in StepSet /\ StepOK(c, s) /\ Class(s) # "connfail"
+ConnectOk(c) == /\ pc[c] = "connect" /\ \E s \in StepSet :
+                   /\ StepOK(c, s) /\ Class(s) # "connfail"
                    /\ conns' = Append(conns, [open |-> TRUE, taint |-> {}])
                    /\ cache' = NewConn /\ cur' = [cur EXCEPT ![c] = NewConn] /\ fresh' = [fresh EXCEPT ![c] = TRUE]
                    /\ stp' = [stp EXCEPT ![c] = s] /\ Note(c, s)
@@ -150,8 +158,8 @@ SendStale(c) == /\ pc[c] = "send" /\ ~fresh[c] /\ ~conns[cur[c]].open
                 /\ Fail(c, "Other")
                 /\ UNCHANGED <<ri, meth, pre, bud, att, cur, fresh, stp, idle, script>>
 \* a request arriving on a kept-alive connection: the peer picks its step now
-PickCached(c, s) == /\ pc[c] = "send" /\ ~fresh[c] /\ conns[cur[c]].open /\ stp[c] = None
-                    /\ s \in StepSet /\ StepOK(c, s) /\ ~FreshOnly(s)
+PickCached(c) == /\ pc[c] = "send" /\ ~fresh[c] /\ conns[cur[c]].open /\ stp[c] = None /\ \E s \in StepSet :
+                    /\ StepOK(c, s) /\ ~FreshOnly(s)
                     /\ stp' = [stp EXCEPT ![c] = s] /\ Note(c, s)
                     /\ UNCHANGED <<pc, ri, meth, pre, bud, att, cur, fresh, err, idle, lease, cache, conns, atts, script>>
 \* the request is handed to the engine; what the peer's step lets through
@@ -221,7 +229,7 @@ Finish(c) == /\ pc[c] = "finish"
 
 Next == \E c \in Callers :
           \/ Start(c) \/ AcquireLease(c) \/ Reuse(c) \/ EvictIdle(c) \/ Miss(c)
-          \/ (\E s \in StepSet : ConnectFails(c, s) \/ ConnectResetEarly(c, s) \/ ConnectOk(c, s) \/ PickCached(c, s))
+          \/ ConnectFails(c) \/ ConnectResetEarly(c) \/ ConnectOk(c) \/ PickCached(c)
           \/ SetSyncMode(c) \/ SendStale(c) \/ Send(c) \/ RecvFails(c) \/ RecvOk(c) \/ RetryDecision(c) \/ Finish(c)
 Spec == Init /\ [][Next]_vars
 
